@@ -318,3 +318,10 @@ class OpaqueArgs:
 
     def __init__(self, owner):
         self.owner = owner
+
+
+class PartialV:
+    """functools.partial(func, *args, **kwargs)"""
+
+    def __init__(self, func, args, kwargs):
+        self.func, self.args, self.kwargs = func, tuple(args), dict(kwargs)
